@@ -176,6 +176,9 @@ def owner1(ctx, prog, cfg):
     from .. import drainrules
 
     drainrules.drnview1(ctx, prog, cfg, "OWNER1")
+    # each element is moved out at most once: what next/next_back hand out is read(i) for exactly the index the
+    # range iterator just produced, and the drain's index iterator is advanced by nothing else
+    drainrules.drainit1(ctx, prog, cfg, "OWNER1")
     # the slot ranges handed to the destructors: the un-yielded views of a drain and drop_range's two pieces
     from .. import shapes
 
